@@ -27,6 +27,9 @@ warnings.filterwarnings("ignore")
 
 from sv import core  # noqa: E402
 
+if core.REPO != "/repo":   # development: run against a scratch worktree (SCORES_REPO=/tmp/wt)
+    sys.path.insert(0, os.path.join(core.REPO, "src"))
+
 
 def main():
     ap = argparse.ArgumentParser()
